@@ -5,6 +5,7 @@ import numpy as np
 from .. import core, gen
 
 PROP_FILE = 'Knee/Props/C11.lean'
+PROP_FILES = ['Knee/Props/C11.lean', 'Knee/Props/Invariance.lean']
 KINDS = ['single', 'complete', 'centroid', 'average']
 RULE = ('strictly increasing x (integer/dyadic grids with power-of-two ranges so quotients are representable, cluster sizes that make running means '
         'representable, random float64), 4 linkages, thresholds from a grid and from the linkage distances of the input itself (exact ties distance == t). '
